@@ -266,6 +266,19 @@ fn observe<'v>(f: impl FnOnce() -> starlark::Result<Value<'v>>) -> Obs {
     }
 }
 
+/// A function of the shape `def g(<one parameter>): return type(x) == "int"`: calls of a known such
+/// callee are rewritten into a type test at the call site.  The observation is mapped back onto the
+/// specification's: the bound value is an int exactly when the test says so.
+fn observe_typeis<'v>(c: &Case, f: impl FnOnce() -> starlark::Result<Value<'v>>) -> Obs {
+    match observe(|| f()) {
+        Obs::Ok(j) => {
+            let exp = c.exp_vals[0][0] == "i";
+            if j == json!([["i", if exp { 1 } else { 0 }]]) { Obs::Ok(c.exp_vals.clone()) } else { Obs::Ok(json!({"typeis": j})) }
+        }
+        o => o,
+    }
+}
+
 // ------------------------------------------------------------------------------------------
 // native function with the same signature
 
@@ -386,6 +399,13 @@ fn run_chunk(sig: &[Param], cases: &[&Case], o: &Opts) -> Result<Vec<PathObs>, S
             src_a.push_str(&format!("def w{}_{}(): return {}({})\n", i, k, callee, render_args(c, k)));
         }
     }
+    let one = sig.len() == 1;
+    if one {
+        src_a.push_str(&format!("def g1({}): return type({}) == \"int\"\n", render_params(sig), sig[0].name));
+        for (i, c) in cases.iter().enumerate() {
+            src_a.push_str(&format!("def tw{}(): return [1 if g1({}) else 0]\n", i, render_args(c, 0)));
+        }
+    }
     let host_ok = |c: &Case| c.star.is_none() && c.starstar.is_none();
 
     // module T: the call as a module-level statement, its own compilation unit each time
@@ -418,6 +438,10 @@ fn run_chunk(sig: &[Param], cases: &[&Case], o: &Opts) -> Result<Vec<PathObs>, S
                     }
                     let w = module.get(&format!("w{}_{}", i, k)).ok_or("wrapper missing")?;
                     res[i].push((style.to_string(), observe(|| eval.eval_function(w, &[], &[]))));
+                }
+                if one && want(o, "typeis") {
+                    let w = module.get(&format!("tw{}", i)).ok_or("tw missing")?;
+                    res[i].push(("typeis".to_owned(), observe_typeis(c, || eval.eval_function(w, &[], &[]))));
                 }
                 if host_ok(c) {
                     let (pos, named) = host_args(module.heap(), c);
@@ -468,6 +492,10 @@ fn run_chunk(sig: &[Param], cases: &[&Case], o: &Opts) -> Result<Vec<PathObs>, S
                 let w = fa.get_owned(&format!("w{}_{}", i, k)).map_err(|e| format!("frozen wrapper: {}", e))?.add_to_heap(module.heap());
                 res[i].push((path, observe(|| eval.eval_function(w, &[], &[]))));
             }
+            if one && want(o, "frozen_typeis") {
+                let w = fa.get_owned(&format!("tw{}", i)).map_err(|e| format!("frozen tw: {}", e))?.add_to_heap(module.heap());
+                res[i].push(("frozen_typeis".to_owned(), observe_typeis(c, || eval.eval_function(w, &[], &[]))));
+            }
             if host_ok(c) && want(o, "frozen_host") {
                 let f = fa.get_owned("f").map_err(|e| format!("frozen f: {}", e))?.add_to_heap(module.heap());
                 let (pos, named) = host_args(module.heap(), c);
@@ -480,7 +508,12 @@ fn run_chunk(sig: &[Param], cases: &[&Case], o: &Opts) -> Result<Vec<PathObs>, S
 
     // module B loads f from frozen A
     if want(o, "load") || want(o, "load_top") || want(o, "load_frozen") {
-        let mut src_b = String::from("load(\"a.star\", \"f\", \"S\")\n");
+        let mut src_b = String::from(if one { "load(\"a.star\", \"f\", \"S\", \"g1\")\n" } else { "load(\"a.star\", \"f\", \"S\")\n" });
+        if one {
+            for (i, c) in cases.iter().enumerate() {
+                src_b.push_str(&format!("def ut{}(): return [1 if g1({}) else 0]\n", i, render_args(c, 1)));
+            }
+        }
         for (i, c) in cases.iter().enumerate() {
             src_b.push_str(&format!("def u{}(): return f({})\n", i, render_args(c, 1)));
             src_b.push_str(&format!("def us{}(): return S.f({})\n", i, render_args(c, 0)));
@@ -498,6 +531,10 @@ fn run_chunk(sig: &[Param], cases: &[&Case], o: &Opts) -> Result<Vec<PathObs>, S
                         res[i].push(("load".to_owned(), observe(|| eval.eval_function(w, &[], &[]))));
                         let w = module.get(&format!("us{}", i)).ok_or("us missing")?;
                         res[i].push(("load_struct".to_owned(), observe(|| eval.eval_function(w, &[], &[]))));
+                        if one {
+                            let w = module.get(&format!("ut{}", i)).ok_or("ut missing")?;
+                            res[i].push(("load_typeis".to_owned(), observe_typeis(cases[i], || eval.eval_function(w, &[], &[]))));
+                        }
                     }
                 }
             }
